@@ -109,9 +109,18 @@ def run_mutants(pid, chk=None):
     return out
 
 
+# rewrites that are equal over the reals but not in IEEE arithmetic are not "behaviour preserving"
+# for the IEEE-level property: sqrt(s*s/n) overflows to inf for s > 1.3e154 and then 0 * inf = NaN
+# at level exactly 1/2 (C11 reports that, correctly)
+SILENCE_EXCEPT = {'sem-form': {'C11'}}
+
+
 def run_silence(pid):
     out = []
     for sid, rel, old, new, desc in SILENCE:
+        if pid in SILENCE_EXCEPT.get(sid, ()):
+            out.append({'rewrite': sid, 'status': 'skipped', 'note': 'equal over the reals only; not behaviour-preserving at the IEEE level this property speaks about'})
+            continue
         with Scratch() as sc:
             if not sc.replace(rel, old, new, count=99 if sid == 'rename-private-helper' else 1):
                 out.append({'rewrite': sid, 'status': 'skipped', 'note': 'anchor text not found in the current tree'})
